@@ -49,6 +49,20 @@ theorem declared_key (items : List Item) (d : Declared) (k : String) (h : conver
   rw [colNames_eq, ← parse_names]
   exact ((convert_some h).2 k hk).2
 
+/-- … found whatever the case the PRIMARY KEY clause is written in, and declared in the column's
+    own spelling (F96; fact `keyColumnFoldedLookup`) -/
+theorem declared_key_named_by_clause (items : List Item) (d : Declared) (k : String)
+    (h : convert items = some d) (hk : d.key = some k) :
+    ∃ k0, (parse items).pk = [k0] ∧ lower k = lower k0 :=
+  ((convert_some h).2 k hk).1
+
+/-- `id, name, PRIMARY KEY(ID)` is accepted with the key `id` -/
+example :
+    convert [.col "id" true [], .col "name" true [], .tablePK ["ID"]] =
+      some { cols := [("id", false), ("name", false)], key := some "id" } := by
+  simp only [convert, Function.comp_def, lower_eq]
+  decide
+
 /-- UNIQUE anywhere is rejected -/
 theorem rejects_unique (pre post : List Item) (n : String) (t : Bool) (cs : List Cons) (h : Cons.unique ∈ cs) :
     convert (pre ++ .col n t cs :: post) = none :=
